@@ -105,7 +105,8 @@ def stepwise(r, w, mode):
     for s in step_names(r):
         v = getattr(r, "read_" + s)()
         wr = getattr(w, "write_" + s)
-        if mode == "fortran":
+        if mode in ("fortran", "views"):
+            _LAYOUT[0] = mode
             # every multi-dimensional array handed to the writer is Fortran-ordered (a layout numpy users produce with .T / order="F")
             v = [relayout(x) for x in v] if isinstance(v, types.GeneratorType) else relayout(v)
             wr(v)
@@ -384,8 +385,27 @@ def altrepr(x, depth=0):
     return x
 
 
+_LAYOUT = ["fortran"]
+
+
+def _other_layout(a):
+    """the same array (values, shape, dtype) in another memory layout: Fortran order, or ("views") a non-contiguous view - every second element of a
+    buffer twice as long along the first axis, reversed along the last one"""
+    import numpy as np
+    if _LAYOUT[0] == "fortran":
+        return np.asfortranarray(a) if a.ndim >= 2 else a
+    if a.ndim == 0 or a.size == 0:
+        return a
+    big = np.empty((2 * a.shape[0],) + a.shape[1:], dtype=a.dtype)
+    big[::2] = a[..., ::-1]
+    big[1::2] = a[..., ::-1]
+    v = big[::2][..., ::-1]
+    assert not v.flags["C_CONTIGUOUS"] or v.size <= 1
+    return v
+
+
 def relayout(x, depth=0):
-    """returns x with every ndarray of >= 2 dimensions replaced by a Fortran-ordered copy (same values, same shape)"""
+    """returns x with every ndarray replaced by the same array in another memory layout (same values, same shape)"""
     import numpy as np
     if depth > 8:
         return x
@@ -394,8 +414,8 @@ def relayout(x, depth=0):
             out = np.empty(x.shape, dtype=object)
             for idx in np.ndindex(x.shape):
                 out[idx] = relayout(x[idx], depth + 1)
-            return np.asfortranarray(out) if x.ndim >= 2 else out
-        return np.asfortranarray(x) if x.ndim >= 2 else x
+            return _other_layout(out)
+        return _other_layout(x)
     if isinstance(x, list):
         return [relayout(y, depth + 1) for y in x]
     if isinstance(x, tuple):
